@@ -213,7 +213,7 @@ func c19Run(r *core.Run) {
 	}
 	// flag side
 	flagRoots := ""
-	fr := t.Draw(6)
+	fr := t.Draw(7)
 	if !allow(1) {
 		fr = fr % 4
 		if !useConfig {
@@ -221,6 +221,12 @@ func c19Run(r *core.Run) {
 		}
 	}
 	switch fr {
+	case 6: // only a foreign root: replaces whatever paths the config lists
+		args = append(args, "-trusted_roots", bundleC)
+		flagRoots = "C"
+		if strings.Contains(rootsListed, "A") && len(rot.CabundlePaths) > 0 {
+			r.Probe("flag_roots_replace_config_paths")
+		}
 	case 0, 1, 2:
 	case 3:
 		args = append(args, "-trusted_roots", bundleA)
